@@ -77,7 +77,7 @@ def expected(P, args, pol, bv, params):
         return {"path": "strict", "acc": {(-1, -r) for r in sv}, "nan": True}
     ev = MG.Evaluator(P, args, params)
     v, d = ev.run()
-    tol = max(d, 4.0 * MG.ulp(v)) + 1e-300 if v == v else 0.0
+    tol = MG.TOLK * max(d, 4.0 * MG.ulp(v)) + 1e-300 if v == v else 0.0
     ob, opb = P.prog.get("ob"), P.prog.get("opb")
     if ev.uncertain or d == math.inf or near(ob, v, bv, d) or near(opb, v, bv, d):
         return {"path": "uncertain"}
@@ -230,7 +230,7 @@ def check_call(P, m, r, params, longb):
         if viol(opb, v, ident) or near(opb, v, ident, d) or (longb and (viol(opb, v, t6) or near(opb, v, t6, d))):
             return [], ("c.output_physical", False)
         obs = MG.unhex(r["v"])
-        tol = max(d, 4.0 * MG.ulp(v)) + 1e-300
+        tol = MG.TOLK * max(d, 4.0 * MG.ulp(v)) + 1e-300
         if not (abs(obs - v) <= tol):
             fails.append(("C38.c.value", "c: %s%s = %r, reference %r (tol %.3g)" % (P.fname, desc_args, obs, v, tol)))
         return fails, ("c.value", False)
@@ -300,12 +300,23 @@ def check_call(P, m, r, params, longb):
 
 
 def check_case(case):
+    try:
+        return _check_case(case)
+    except Reject:
+        raise
+    except Exception:
+        import traceback
+        MG.note_failure()
+        return Result(False, key="C38.harness", msg="harness error:\n" + traceback.format_exc()[-3000:])
+
+
+def _check_case(case):
     prog = case["prog"]
     try:
         P = MG.Prepared(prog)
     except MG.Reject:
         raise Reject()
-    libs, err = MG.build_budgeted(P, ROOT, int(param("shrink_builds", 10)))
+    libs, err = MG.build_budgeted(P, ROOT, int(os.environ.get("VERIF_SHRINK_BUILDS", param("shrink_builds", 10))))
     if err:
         MG.note_failure()
         kind = "mfront" if err.startswith("mfront") else "gxx"
